@@ -5,10 +5,10 @@ use super::*;
 // (statics have distinctive non-zero initial values and are explicitly initialised: Kani 0.68 can alias a
 // constant allocation with a static whose initial bytes are identical, see c16_io.rs)
 static mut QP: *const OrderedWorkStealQueue<u8> = std::ptr::without_provenance(0x33);
-static mut B_DONE: bool = false;
+static mut B_DONE: bool = true; // (initial value is NOT the reset value on purpose, see the note above)
 static mut B_KIND: u8 = 0x34;
 static mut B_PRIO: c_longlong = 0x35;
-static mut B_POPPED: Option<u8> = None;
+static mut B_POPPED: Option<u8> = Some(0x37);
 
 fn thread_b() {
     unsafe {
@@ -29,9 +29,9 @@ fn hook(_site: u32) {
     }
 }
 
-#[kani::proof]
-#[kani::unwind(8)]
-fn c03_ows_global_race() {
+/// The two operation kinds are concrete per harness (4 instances: the symbolic-kind version did not finish in 900 s);
+/// the pre-fill, both priorities and the pre-emption point stay symbolic.
+fn ows_global_race(a_kind: u8, b_kind: u8) {
     let q: OrderedWorkStealQueue<u8> = OrderedWorkStealQueue::new(1, 2);
     let pre: u8 = kani::any();
     kani::assume(pre <= 2);
@@ -40,14 +40,11 @@ fn c03_ows_global_race() {
         q.push_with_priority(0, 10 + i);
         i += 1;
     }
-    let a_kind: u8 = kani::any();
-    kani::assume(a_kind <= 1);
     let a_prio: c_longlong = if kani::any() { 0 } else { 1 };
     unsafe {
         QP = &raw const q;
         B_DONE = false;
-        B_KIND = kani::any();
-        kani::assume(B_KIND <= 1);
+        B_KIND = b_kind;
         B_PRIO = if kani::any() { 0 } else { 1 };
         B_POPPED = None;
     }
@@ -94,8 +91,22 @@ fn c03_ows_global_race() {
         kani::assert(seen200, "the item pushed by thread B is not lost");
     }
     kani::assert(reported == held, "the shared queue's reported length equals the number of items it holds");
-    kani::cover!(preempted && a_kind == 0 && unsafe { B_KIND } == 0, "two racing pushes");
-    kani::cover!(preempted && a_kind == 1 && unsafe { B_KIND } == 1 && pre == 2, "two racing pops");
+    kani::cover!(preempted, "thread B ran inside thread A's operation");
+    kani::cover!(!preempted, "thread B ran after thread A's operation");
     q.len.verif_set(0);
     core::mem::forget(q);
 }
+
+macro_rules! ows_race {
+    ($name:ident, $a:expr, $b:expr) => {
+        #[kani::proof]
+        #[kani::unwind(8)]
+        fn $name() {
+            ows_global_race($a, $b);
+        }
+    };
+}
+ows_race!(c03_ows_race_push_push, 0, 0);
+ows_race!(c03_ows_race_push_pop, 0, 1);
+ows_race!(c03_ows_race_pop_push, 1, 0);
+ows_race!(c03_ows_race_pop_pop, 1, 1);
